@@ -84,6 +84,7 @@ package tuple
 //@   loop 0 invariant @st1 state == 1 ==> 0 < index(s, ':') && index(s, ':') < $pos && (forall j :: index(s, ':') < j && j < $pos ==> s[j] != ':') && idLen >= 0 && (idLen > 0 <==> $pos > index(s, ':')+1)
 //@   ensures @sound ok ==> objectShape(s)
 //@   ensures @asciiComplete isASCII(s) && objectShape(s) ==> ok
+//@   ensures @noHash ok ==> index(s, '#') == -1
 //@   pure
 
 //@ func IsValidRelation(s) (ok)
@@ -91,6 +92,7 @@ package tuple
 //@   loop 0 invariant @count count >= 0 && (count > 0 <==> $pos > 0)
 //@   ensures @sound ok ==> relationShape(s)
 //@   ensures @asciiComplete isASCII(s) && relationShape(s) ==> ok
+//@   ensures @noSeparators ok ==> index(s, '#') == -1 && index(s, '@') == -1 && index(s, ':') == -1
 //@   pure
 
 //@ func IsValidUserID(s) (ok)
@@ -115,6 +117,29 @@ package tuple
 //@ func IsValidUser(user) (ok)
 //@   ensures ok <==> (user == "*" || IsValidUserID(user) || IsValidObject(user) || IsValidUserset(user))
 //@   pure
+
+
+// ---- tuple string form: object '#' relation '@' user
+//@ func (*Tuple).String(t) (s)
+//@   option nosafety
+//@   modifies nothing
+//@   ensures s == t.GetObject() + "#" + t.GetRelation() + "@" + t.GetUser()
+
+//@ func ParseTupleString(s) (tk, err)
+//@   option nosafety
+//@   modifies nothing
+//@   ensures @noHash index(s, '#') == -1 ==> err != nil && tk == nil
+//@   ensures @noAt index(s, '#') >= 0 && index(s[index(s, '#')+1:], '@') == -1 ==> err != nil && tk == nil
+//@   ensures @fields err == nil ==> tk != nil && tk.Object == s[:index(s, '#')] && tk.Relation == s[index(s, '#')+1:][:index(s[index(s, '#')+1:], '@')] && tk.User == s[index(s, '#')+1:][index(s[index(s, '#')+1:], '@')+1:] && tk.Condition == nil
+//@   ensures @validParts err == nil ==> IsValidObject(tk.Object) && IsValidRelation(tk.Relation) && IsValidUser(tk.User)
+//@   ensures @accepts index(s, '#') >= 0 && index(s[index(s, '#')+1:], '@') >= 0 && IsValidObject(s[:index(s, '#')]) && IsValidRelation(s[index(s, '#')+1:][:index(s[index(s, '#')+1:], '@')]) && IsValidUser(s[index(s, '#')+1:][index(s[index(s, '#')+1:], '@')+1:]) ==> err == nil
+
+// rendering a valid tuple and parsing it back yields the original (the user may contain '@': the FIRST '@' after the relation separates)
+//@ lemma tuple_string_roundtrip(t *Tuple)
+//@   requires t != nil && IsValidObject(t.GetObject()) && IsValidRelation(t.GetRelation()) && IsValidUser(t.GetUser())
+//@   let s = (*Tuple).String(t)
+//@   let tk, err = ParseTupleString(s)
+//@   ensures err == nil && tk.Object == t.GetObject() && tk.Relation == t.GetRelation() && tk.User == t.GetUser()
 
 //@ lemma split_build(t string, id string)
 //@   requires !containsByte(t, ':')
